@@ -37,6 +37,7 @@ def main():
     ap.add_argument("--needs", default="")
     ap.add_argument("--tier", default="quick")
     ap.add_argument("--checks", default="", help="comma separated extra PIDs to run as well")
+    ap.add_argument("--seed", default=None, help="VERIF_SEED for the check (default 0); with a seed given only meta['by_seed'] is updated")
     a = ap.parse_args()
     sid = f"{a.pid}-{a.name}"
     wt = f"/tmp/seedtest/{sid}-{os.getpid()}"
@@ -72,6 +73,8 @@ def main():
         results = {}
         for pid in [a.pid] + [x for x in a.checks.split(",") if x]:
             env2 = dict(env, VERIF_REPO=wt, VERIF_NO_EVIDENCE="1")
+            if a.seed is not None:
+                env2["VERIF_SEED"] = str(a.seed)
             t0 = time.time()
             rc3, out3 = run([os.path.join(VERIF, "check"), pid, "--tier", a.tier], cwd=VERIF, env=env2)
             vio = [ln for ln in out3.splitlines() if ln.startswith("VIOLATION")]
@@ -90,6 +93,12 @@ def main():
     d = os.path.join(VERIF, "seeded", sid)
     os.makedirs(d, exist_ok=True)
     old = os.path.join(d, "meta.json")
+    if a.seed is not None and os.path.exists(old):
+        o = json.load(open(old))
+        o.setdefault("by_seed", {})[str(a.seed)] = meta.get("detected_by", [])
+        json.dump(o, open(old, "w"), indent=1)
+        print(json.dumps({"id": sid, "seed": a.seed, "detected_by": meta.get("detected_by")}))
+        return
     if os.path.exists(old) and "suite_ok" not in meta:
         o = json.load(open(old))
         for k in ("suite_ok", "suite_tail"):
